@@ -12,6 +12,7 @@ import ast
 from dataclasses import dataclass, field
 from typing import Any, Callable
 
+from .vocabulary import PINNED_FUNCTIONS
 from .model import (AnalysisError, ClassRef, ConstEval, ExtRef, FuncInfo, FuncRef, ModRef, RegexConst, Repo, Unknown,
                     norm_src)
 
@@ -1181,6 +1182,8 @@ class Frame:
             return model(self, n, args, kwargs)
         may_inline = self.ev.inline and name not in self.ev.no_inline and \
             (self.ev.inline_only is None or name in self.ev.inline_only)
+        if not may_inline and isinstance(target, (BoundMethod, FuncRef)) and name not in PINNED_FUNCTIONS and name not in self.ev.call_models:
+            may_inline = True  # a helper that did not exist when the rules were written: follow it (vocabulary.py)
         if isinstance(target, Closure):
             params = target.fn.params()
             amap = dict(zip(params, args))
